@@ -37,6 +37,17 @@ def model_phase(c, tier):
     # the canonical conversion (Frames.tla: inclusive/wrapping ranges <-> half-open pieces) composed with the paving, one real
     # dimension at a time: theorems (MC_Frames), then the model's normal form of 5 100 sentences against the real normaliser
     c.add_tlc(vlib.tlc_ok("MC_Frames", workers=1, heap="2g", timeout=900))
+    # beyond the four instances: the covering theorem for EVERY dimension size, by the TLA+ proof system (a stretch on top of
+    # the model checking; if tlapm cannot run here the outcome is only recorded)
+    import subprocess
+    try:
+        pr = subprocess.run(["tlapm", "--threads", "4", "--nofp", "--cache-dir", os.path.join(vlib.WORK, "tlacache_%s" % c.pid.lower()),
+                             "-I", vlib.SPEC, os.path.join(vlib.SPEC, "proofs", "FramesProofs.tla")],
+                            stdout=subprocess.PIPE, stderr=subprocess.STDOUT, text=True, timeout=900, env=vlib.clean_env())
+        last = [l for l in pr.stdout.splitlines() if "obligations" in l]
+        c.setv("tlaps_FramesProofs_CoverAll", last[-1].strip() if last else "no result (rc=%d)" % pr.returncode)
+    except Exception as exc:  # noqa: BLE001
+        c.setv("tlaps_FramesProofs_CoverAll", "not run: %s" % str(exc)[:120])
     fpath = os.path.join(vlib.WORK, "%s_frames.ndjson" % c.pid.lower())
     vlib.tlc_ok("Gen_Frames", env={"OUT": fpath}, workers=1, heap="4g", timeout=1800)
     fcases = [json.loads(l) for l in open(fpath)]
